@@ -328,6 +328,66 @@ def check_stack(ctx, P, strategy, tag=""):
     o.check(bad is None, "%s / %s" % pair, bad, site=fr.loc, construct="stack pairing " + strategy)
 
 
+def check_stack_size(ctx, P, strategy, tag=""):
+    from rules import is_param_load, is_var_load
+    from symword import Machine
+    al = P.fn("fiber_context_alloc_stack")
+    o = ctx.ob("stack.size" + tag, al, "strategy %s: the stack handed to the fiber is at least as large as requested, for every size_t request (including 4 GiB and more), and the "
+               "recorded ctx_stack_size is the size actually allocated" % strategy,
+               "a size truncated to 32 bits gives a fiber that asked for 4 GiB + x a stack of x bytes: it runs off its own stack into other fibers' stacks")
+    bad = None
+    target = {"split": "__splitstack_makecontext", "malloc": "malloc", "mmap": "mmap"}[strategy]
+    calls = al.calls(target)
+    if len(calls) != 1:
+        bad = "allocation call not found"
+    else:
+        argi = {"split": 0, "malloc": 0, "mmap": 1}[strategy]
+        for req in (1024, 102400, 100008, 2 ** 32 - 8, 2 ** 32 + 4096, 2 ** 33 + 12345):
+            m = Machine(al, P, atom_from([(is_param_load(al, "stack_size"), req),
+                                          (lambda n: n.k == "CallExpr" and n.callee == "sysconf", 4096),
+                                          (lambda n: n.k == "ImplicitCastExpr" and n.ck == "LValueToRValue" and strip(n).k == "DeclRefExpr" and strip(n).name == "fiberPageSize", 4046)]))
+            # the parameter may be re-assigned before the call: interpret up to the call
+            pd = [p["did"] for p in al.params if p["name"] == "stack_size"][0]
+            m.vals[pd] = req
+            try:
+                hit = m.run("entry", lambda n: n is calls[0])
+                got = m.eval(al.args(calls[0])[argi]) if hit is not None else None
+            except Unevaluable as e:
+                got = None
+            if got is None:
+                if strategy == "mmap":
+                    continue  # size computed by a page-rounding helper with a static cache: covered by the recorded-size rule below
+                bad = bad or "cannot evaluate the allocation size for a request of %d bytes" % req
+            elif got < req:
+                bad = bad or "a request of %d bytes allocates only %d bytes" % (req, got)
+        if strategy in ("malloc", "mmap"):
+            st = al.stores_to(CTX, "ctx_stack_size")
+            if len(st) != 1:
+                bad = bad or "ctx_stack_size is not recorded exactly once"
+            else:
+                ak = al.key(al.args(calls[0])[argi], resolve=True)
+                sk = al.key(st[0].value, resolve=True)
+                rk = al.target_key(st[0].target)
+                if not (ak == sk or ak == rk or key_mentions(ak, lambda x: x == rk)):
+                    bad = bad or "the size allocated (`%s`) and the size recorded (`%s`) are different expressions" % (al.args(calls[0])[argi].text, st[0].value.text)
+    o.check(bad is None, "6 request sizes", bad, site=al.loc, construct="stack size " + strategy)
+    if strategy == "mmap":
+        rp = P.fn("fiber_round_to_page_size")
+        o = ctx.ob("stack.size.round" + tag, rp, "the page rounding returns at least the requested size (and at least two pages) for every size_t request", "as stack.size")
+        bad = None
+        ps = [d for d in rp.nodes if d.k == "ImplicitCastExpr" and d.ck == "LValueToRValue" and strip(d).k == "DeclRefExpr" and strip(d).name == "fiberPageSize"]
+        for req in (1, 4046, 4047, 102400, 2 ** 32 - 8, 2 ** 32 + 4096):
+            atom = atom_from([(is_param_load(rp, "size"), req), (nodeset(ps), 4046)])
+            rets = rp.returns()
+            try:
+                v = ev(rp, rets[-1].kids[0], atom)
+            except Unevaluable:
+                v = None
+            if v is None or v < req or v < 2 * 4046:
+                bad = bad or "request %d -> %s bytes" % (req, v)
+        o.check(bad is None, "rounding table", bad, site=rp.loc, construct="page rounding")
+
+
 def check_ucontext(ctx, P):
     sw = P.fn("fiber_context_swap")
     o = ctx.ob("ucontext.swap", sw, "ucontext back-end: swapcontext(from's ucontext, to's ucontext) in that order", "swapped operands save into the context being resumed")
@@ -369,6 +429,7 @@ def run(ctx):
     check_fresh(ctx, P, R)
     strategy = "split" if "-DFIBER_STACK_SPLIT" in P.manifest["flags"] else ("malloc" if "-DFIBER_STACK_MALLOC" in P.manifest["flags"] else "mmap")
     check_stack(ctx, P, strategy)
+    check_stack_size(ctx, P, strategy)
     ctx.derived["template"] = {"pushes": [r for r, v in R["pushes"]], "pops": [r for r, o_ in R["pops"]]} if R else None
 
 
@@ -379,6 +440,7 @@ def thorough(ctx):
         R = check_swap(ctx, Q, "")
         check_fresh(ctx, Q, R)
         check_stack(ctx, Q, strat)
+        check_stack_size(ctx, Q, strat)
     ctx.config = "ucontext"
     Q = ctx.prog("ucontext")
     check_ucontext(ctx, Q)
